@@ -9,10 +9,8 @@ TRUST = ('rustc MIR construction and Instance resolution (nightly 1.97); hand-wr
 CHECKS = {
     'C09': dict(
         level='other',
-        technique='abstract interpretation of MIR per input cell (interval x known-bits x term), compared with exact spec',
-        text=('Decides the guard layer of round/floor/ceil/trunc/fract for P8E0, P16E1, P32E2: every hand-written small-magnitude '
-              'branch, the "already an integer" region, zero and NaR, as theorems about all inputs of each control-determinate cell. '
-              'Does NOT decide the mask arithmetic of the decoded middle range nor the exactness of the subtraction in fract.'),
+        technique='symbolic bit-vector abstract interpretation of MIR on rounding cells (sign x scale x rounding situation; remaining bits symbolic): result vector == correctly rounded encoding, may-mode path enumeration for undecided tests, concrete confirmation before any alarm at the units position; term-mode wiring of fract',
+        text=('round (ties to even), floor, ceil and trunc of P8E0/P16E1/P32E2 are proved for every bit pattern on rounding cells at the units position; zero and NaR separately; fract is proved to be self.sub(self.trunc()). That this subtraction is exact is the correctness of posit subtraction on a representable difference (C01), assumed and NOT decided here.'),
         design='4/C09'),
 }
 
@@ -20,18 +18,15 @@ CHECKS.update({
     'C01': dict(level='other', technique='abstract interpretation of MIR per operand-pair cell vs exact rational oracle',
         text=('Decides the NaR/zero algebra and guard evaluation order of + - * / (const methods) for all operand pairs of each control-determinate cell; specification-critical operand pairs '
               '(exact ties, saturation, powers of two) are decided singly by constant propagation through the MIR. Does NOT decide rounding/alignment on the general arithmetic path beyond those points.'), design='4/C01'),
-    'C02': dict(level='other', technique='abstract interpretation of MIR per float-bit-pattern cell vs exact oracle',
-        text=('Decides +-0, NaN/inf, saturation thresholds and +-1 of from_f32/from_f64 for the three types on every control-determinate cell of float bit patterns. '
-              'Float bit patterns at and next to posit rounding midpoints are decided singly. Does NOT decide bitround on the general path beyond those points.'), design='4/C02'),
+    'C02': dict(level='proof', technique='symbolic bit-vector abstract interpretation of MIR on rounding cells (sign x scale x rounding situation; remaining bits symbolic): result vector == correctly rounded encoding, may-mode path enumeration for undecided tests, concrete confirmation before any alarm; interval cells for zero/subnormal/inf/NaN',
+        text=('Every finite non-zero normal f32/f64 lies in exactly one rounding cell (sign, exponent, rounding situation of the target) on which the six from_f32/from_f64 conversions return bit-for-bit the posit-rule rounding (nearest, ties to even encoding, saturating, never zero); zeros, subnormals, infinities and NaNs are decided on interval cells. Hence from_f32(x) == from_f64(x as f64). Quick tier samples the sticky position / carry run for f64->P32E2 only; thorough takes every cell.'), design='4/C02'),
     'C06': dict(level='other', technique='abstract interpretation per cell + literal-table agreement with exact integer square roots',
         text=('P8E0::sqrt decided for all 256 inputs (table indexing term + every table entry vs exact root); P16E1/P32E2: NaR, negative, zero and literal cut-point cells. '
               'Newton-Raphson general path not decided.'), design='4/C06'),
-    'C07': dict(level='other', technique='abstract interpretation of MIR per integer / posit cell vs exact round-half-even oracle',
-        text=('Decides saturation thresholds, small-value branches, sign handling and narrow-width forwarding of from_*/to_* integer conversions per control-determinate cell. '
-              'Integers at and next to rounding midpoints and powers of two are decided singly. General-path rounding beyond those points not decided.'), design='4/C07'),
-    'C08': dict(level='other', technique='abstract interpretation of MIR per source-format cell vs exact oracle',
-        text=('The three widening conversions are proved exact for every bit pattern by bit-routing equality per regime cell; zero/NaR preservation and saturation thresholds of all six conversions (both spellings) per cell. '
-              'Widen-then-narrow is proved the identity per regime cell; narrowing ties decided singly. Narrowing rounding between thresholds beyond those points not decided.'), design='4/C08'),
+    'C07': dict(level='proof', technique='symbolic bit-vector abstract interpretation of MIR on rounding cells (sign x scale x rounding situation; remaining bits symbolic): result vector == correctly rounded encoding, may-mode path enumeration for undecided tests, concrete confirmation before any alarm',
+        text=('Every integer of the ten source types (cells: sign x leading-one position x rounding situation) converts to the posit-rule rounding of its value for P8E0/P16E1/P32E2, and every real-valued posit pattern (cells: sign x regime x exponent x rounding situation at the units position) converts to the nearest integer, ties to even, clamped to i32/u32/i64/u64; zero separately. to_*(NaR) is excluded (convention left open).'), design='4/C07'),
+    'C08': dict(level='proof', technique='bit-routing equality per regime cell (widening, widen-then-narrow) + symbolic bit-vector abstract interpretation of MIR on rounding cells (sign x scale x rounding situation; remaining bits symbolic): result vector == correctly rounded encoding, may-mode path enumeration for undecided tests, concrete confirmation before any alarm',
+        text=('The three widening conversions are exact for every bit pattern, widen-then-narrow is the identity, and the three narrowing conversions return the posit-rule rounding for every bit pattern (both spellings from_*/to_* of all six); zero and NaR on interval cells.'), design='4/C08'),
 })
 
 CHECKS.update({
@@ -56,12 +51,12 @@ CHECKS.update({
         text=('to_f32/to_f64 of P8E0 and P16E1 and to_f64 of P32E2 are proved exact for every bit pattern: on each regime cell (sign x regime run x exponent bits, fraction bits symbolic) the result is '
               'bit-for-bit the specified routing; zero/NaR cells; P32E2::to_f32 = `to_f64() as f32`; Display/FromStr wiring through f64; posit -> float -> posit is proved the identity for every pattern by composing the two routings per regime cell (856 cells). float -> posit -> float needs C02 on the general path and is NOT claimed.'),
         design='4/C03'),
-    'C04': dict(level='other', technique='abstract interpretation on accumulator-state x operand cells, term-mode expansion of operand spellings, dependence slices',
+    'C04': dict(level='other', technique='abstract interpretation on accumulator-state x operand cells, term-mode expansion of operand spellings, dependence slices, rounding cells of the accumulator for to_posit',
         text=('is_zero/is_nar decided for every accumulator state (all limbs), to_posit returns 0/NaR exactly there; NaR stickiness and zero operands for all base spellings; every tuple/array `+=`/`-=` spelling expands to the '
-              'expected products with the expected sign; accumulated value depends on flag, operands, accumulator; accumulate sequences whose exact sum is a tie, a near-tie or cancels are decided singly (fixed-point image and single rounding). Exact product placement / carries / single rounding beyond those sequences NOT decided.'), design='4/C04'),
+              'expected products with the expected sign; accumulated value depends on flag, operands, accumulator; to_posit is proved to be the single posit-rule rounding of the fixed-point value of the state on rounding cells of the accumulator (every state for Q8E0; every leading-one position with sampled sticky / lowest-set-bit positions for Q16E1 and Q32E2); accumulate sequences whose exact sum is a tie, a near-tie or cancels are decided singly. That the accumulate leaves exactly the sum in the quire (product placement, carries) is NOT decided beyond those sequences.'), design='4/C04'),
     'C12': dict(level='other', technique='term-mode evaluation + state-cell abstract interpretation + bit routing per regime cell',
         text=('from_bits(to_bits(q)) = q, clear(), neg() on every zero/non-zero limb pattern (incl. 512-bit Q32E2), the to_posit / -= alternation of into_two/three_posits, From<P> for Q = ZERO += (p, ONE); '
-              'Q8E0 posit->quire->posit proved the identity for all patterns, Q16E1 for 104 of 110 regime cells, Q32E2 for 200 of 462. Exactness of the subtractions inside the split and the remaining round-trip cells NOT decided.'), design='4/C12'),
+              'posit->quire->posit proved the identity for every P8E0, P16E1 and P32E2 bit pattern (regime cells refined by the lowest set fraction bit). Exactness of the subtractions inside the residual split NOT decided.'), design='4/C12'),
     'C18': dict(level='proof', technique='term-mode abstract interpretation with a formal-polynomial domain over the generic default bodies',
         text=('poly1..poly18, poly3a, poly4a denote sum c[i]*x^(n-i) with exactly the documented rounded powers (x*x, x2*x, x2*x2) and quire stages; the three posit types use the default bodies. '
               'Assumes a quire stage is the exact sum rounded once (C04) and * is the rounded product (C01).'), design='4/C18'),
@@ -73,8 +68,8 @@ CHECKS.update({
               'exponent extraction and regime scaling must use the units of the decoding type; the kernel result must depend on the selector. N-bit rounding on the general path and the '
               'PxE2<32>==P32E2 / PxE1<16>==P16E1 equivalences are NOT decided. 19 genuine defects of the generic kernels are listed as known findings.'), design='4/C13'),
     'C14': dict(level='other', technique='abstract interpretation per bound N (and per (M,N) pair) on source cells + bit routing per regime cell for to_f64',
-        text=('Zero/NaR preservation, N==2 and saturation cells, integer heads of all generic-width conversions per bound N; to_f64 and the fixed-width -> generic-width conversions proved exact by routing for the analysed widths; from_f64 decided on probe floats. '
-              'Truncation/rounding at bit N on the general path and quire->PxE2 NOT decided. 14 genuine defects listed as known findings.'), design='4/C14'),
+        text=('Zero/NaR preservation, N==2 and saturation cells, integer heads of all generic-width conversions per bound N; to_f64 exact by routing; fixed <-> generic and generic -> generic posit conversions proved correctly rounded on rounding cells for the analysed widths (sticky position sampled); from_f64 decided on probe floats. '
+              'Integer <-> generic conversions beyond the guard cells and quire->PxE2 NOT decided. 12 genuine defects listed as known findings.'), design='4/C14'),
 })
 
 CHECKS.update({
